@@ -187,7 +187,8 @@ def case_strahler(ctx, case, be=None):
                 m = ctx.ask(f"p.relocate {','.join(map(str, kept))} | {','.join(map(str, nodes))} | {wire}")
                 want = [t.split('>')[1] for t in m.split()]
                 got = [str(int(v)) for v in y.connectors.node_id.tolist()] if y.has_connectors else []
-                if 'none' not in want:
+                want = [w for w in want if w != 'none']   # connectors without a surviving ancestor are dropped
+                if True:
                     ctx.corr(got, want, f'prune_by_strahler(relocate_connectors): connectors must move to the nearest surviving ancestor [{be}]', case)
 
 
